@@ -577,7 +577,7 @@ func (c *Check) rulePreallocateOnlyAsCapacity(rule string) {
 			c.Touch(fn)
 		}
 	}
-	c.Min(rule, "uses of preallocate", n, 10)
+	c.Min(rule, "uses of preallocate", n, 5)
 }
 
 // ---------------------------------------------------------------------------------------------
@@ -686,7 +686,7 @@ func (c *Check) ruleRequestTimerAfterSend(rule string) {
 			c.Touch(fn)
 		}
 	}
-	c.Min(rule, "request time-out timers", n, 10)
+	c.Min(rule, "request time-out timers", n, 5)
 }
 
 // ---------------------------------------------------------------------------------------------
